@@ -273,3 +273,22 @@ Fixpoint run (s : istr) (ops : list op) : res istr :=
   | [] => Ok s
   | o :: r => do s' <- step s o; run s' r
   end.
+
+(** * replace(pos, count, str): overwrites in place through detail::str_replace — the length never
+      changes (recorded known finding KF-C04-replace-inplace; the behaviour is pinned by tests/string) *)
+Definition replace_m (s : istr) (pos count : Z) (src : list Z) : res istr :=
+  if pos <? get_size s then
+    if sz (pos + count) <? get_size s then
+      (* for (; f != l && sf != sl; ++f, ++sf) *f = *sf; *)
+      let n := if zlen src <? count then zlen src else count in
+      do b <- write_range (buf s) pos (firstn (Z.to_nat n) src);
+      Ok (with_buf s b)
+    else Contract
+  else Contract.
+
+(** * members called WITHOUT a position: the default argument as written in the header.
+      find / find_first_of / find_first_not_of: 0; find_last_of / find_last_not_of: npos (fixed);
+      rfind: 0 (std: npos — recorded known finding KF-C04-rfind-default, pinned by tests/string) *)
+Definition str_rfind_default_m (s : istr) (n : view) : res Z := str_rfind_m s n 0.
+Definition str_find_last_of_default_m (s : istr) (n : view) : res Z := str_find_last_of_m s n npos.
+Definition str_find_last_not_of_default_m (s : istr) (n : view) : res Z := str_find_last_not_of_m s n npos.
